@@ -111,3 +111,17 @@ Fixpoint tree_eqb (a b : tree) : bool :=
          | _, _ => false
          end) ks ls
   end.
+
+(* Structure.ancestor: the trunk structure at the top of the parent chain *)
+Definition anc_table (f : list tree) : list (Z * Z) :=
+  flat_map (fun r => map (fun u => (tid u, tid r)) (nodes r)) f.
+
+Definition assoc (tb : list (Z * Z)) (i : Z) : Z :=
+  match find (fun e => fst e =? i) tb with Some e => snd e | None => -2 end.
+
+(* navigation observables per structure, in iteration order:
+   (id, (level, (ancestor id, descendant ids in the order of Structure.descendants))) *)
+Definition nav_view (f : list tree) : list (Z * (Z * (Z * list Z))) :=
+  let lt := level_table f in
+  let at_ := anc_table f in
+  map (fun t => (tid t, (assoc lt (tid t), (assoc at_ (tid t), map tid (descendants t))))) (fnodes f).
